@@ -240,7 +240,7 @@ pub fn run(ctx: &Ctx, replay: Option<&J>) -> CheckResult {
         }
         return CheckResult { evidence: ev, rule, assumptions, violations: vs };
     }
-    let cases = ctx.n(120_000, 5_000_000);
+    let cases = ctx.n(400_000, 12_000_000);
     let (mut ev, mut vs) = pt_run(
         ctx,
         "c17",
@@ -270,7 +270,7 @@ pub fn run(ctx: &Ctx, replay: Option<&J>) -> CheckResult {
         |s| json!({"kind":"string","chars":s.chars().map(|c| c as u32).collect::<Vec<u32>>(),"approx":s}),
     );
     // 1029 frames with arbitrary text bytes
-    let frames = ctx.n(60_000, 2_000_000);
+    let frames = ctx.n(400_000, 12_000_000);
     let (fev, fvs) = pt_run(
         ctx,
         "c17-frames",
